@@ -1,0 +1,38 @@
+//go:build verif
+
+package generate
+
+import "github.com/go-swagger/go-swagger/generator"
+
+// verifProbe runs the real option plumbing of createSwagger (apply, copyright, EnsureDefaults, config file) for a
+// command and captures the resulting options instead of generating anything. Build tag `verif` only.
+type verifProbe struct {
+	sharedCommand
+	got *generator.GenOpts
+}
+
+func (p *verifProbe) generate(o *generator.GenOpts) error {
+	p.got = o
+	return nil
+}
+
+// VerifServerOpts returns the GenOpts `swagger generate server` would generate with.
+func VerifServerOpts(regenerateConfigure bool) (*generator.GenOpts, error) {
+	s := &Server{}
+	s.RegenerateConfigureAPI = regenerateConfigure
+	p := &verifProbe{sharedCommand: s}
+	if err := createSwagger(p); err != nil {
+		return nil, err
+	}
+	return p.got, nil
+}
+
+// VerifClientOpts returns the GenOpts `swagger generate client` would generate with.
+func VerifClientOpts() (*generator.GenOpts, error) {
+	c := &Client{}
+	p := &verifProbe{sharedCommand: c}
+	if err := createSwagger(p); err != nil {
+		return nil, err
+	}
+	return p.got, nil
+}
